@@ -22,6 +22,13 @@ func ValueOf(query *Query, current Map, any any) (any, error) {
 	switch value := any.(type) {
 	case ColumnName:
 		{
+			// a group row carries each grouping column under its name as written
+			// in GROUP BY (`o.p`, `a.k`): that is a key of the row, not a path
+			if query != nil && query.groupDefinition[string(value)] {
+				if key, ok := current[string(value)]; ok {
+					return key, nil
+				}
+			}
 			rs, err := ExecReader(current, string(value))
 			if err != nil {
 				// if errors.Is(err, KEY_NOT_FOUND) {
